@@ -388,6 +388,29 @@ func ruleENG2(c *Ctx) {
 			}
 		}
 	}
+	// (a') the evaluation and the firing run against the call's own data context and the knowledge base's own working
+	// memory (an assignment invalidates through the memory it is handed: another memory would leave the memo stale)
+	wmOfKB := p.Field("ast", "KnowledgeBase", "WorkingMemory")
+	for _, ep := range []*ssa.Function{a.exec, a.fetch} {
+		var kb, dc *ssa.Parameter
+		for _, prm := range ep.Params {
+			if isNamed(prm.Type(), fullPkg("ast"), "KnowledgeBase") {
+				kb = prm
+			}
+			if isNamed(prm.Type(), fullPkg("ast"), "IDataContext") {
+				dc = prm
+			}
+		}
+		for _, ci := range findCalls(ep, matchAny(a.isEval, a.isExec)) {
+			args := ci.Common().Args
+			okArgs := len(args) == 4 && unspill(args[2]) == ssa.Value(dc)
+			if okArgs {
+				f, base := fieldLoad(args[3])
+				okArgs = f == wmOfKB && base == ssa.Value(kb)
+			}
+			c.Check(okArgs, fmt.Sprintf("%s / %s runs on the call's data context and the knowledge base's working memory", fnName(ep), calleeName(ci)), p.InstrPos(ci), "(ctx, dataCtx, knowledge.WorkingMemory)", "the rule is evaluated/fired against another data context or working memory than the call's: invalidations and built-ins would act on different state than the conditions read")
+		}
+	}
 	// (c) RuleEntry.Evaluate result discipline
 	fn := a.reEval
 	whenEval := findCalls(fn, matchNamedMethod(fullPkg("ast"), "WhenScope", "Evaluate"))
